@@ -240,13 +240,29 @@ class FractionScalar(AbstractValueWithQuantityObject):
         # this is exactly the same comparison performed by the Scalar, however as they don't share
         # a base class where this method would fit, it was decided to implement it here, instead
         # of creating a base class just because of this method
+        v1, v2 = self._GetValuesToCompare(other)
+        return v1 < v2
+
+    # <=, > and >= must compare the physical amounts as well (functools.total_ordering would derive
+    # them from __lt__ and __eq__, and __eq__ is sensitive to the unit and the category)
+    def __le__(self, other: Any) -> bool:
+        v1, v2 = self._GetValuesToCompare(other)
+        return v1 <= v2
+
+    def __gt__(self, other: Any) -> bool:
+        v1, v2 = self._GetValuesToCompare(other)
+        return v1 > v2
+
+    def __ge__(self, other: Any) -> bool:
+        v1, v2 = self._GetValuesToCompare(other)
+        return v1 >= v2
+
+    def _GetValuesToCompare(self, other: Any) -> Tuple[FractionValue, FractionValue]:
         if self.quantity_type != other.quantity_type:
             msg = "can not compare scalars of different quantity types: %r != %r"
-            raise TypeError(msg % self.quantity_type, other.quantity_type)
+            raise TypeError(msg % (self.quantity_type, other.quantity_type))
 
-        v1 = self._value
-        v2 = other.GetValue(self.unit)
-        return v1 < v2
+        return self._value, other.GetValue(self.unit)
 
     # RegisterFractionScalarConversion -----------------------------------------
     @classmethod
